@@ -249,13 +249,20 @@ def is_builtin_structure(val):
     )
 
 
-def get_loop_ancestor(node):
+def get_loop_ancestor(node, writes=()):
+    innermost = None
+    widest = None
     for par in node.node_ancestors():
         if isinstance(par, nodes.FunctionDef):
-            return node
+            break
         if isinstance(par, (nodes.For, nodes.While)):
-            return par
-    return node
+            if innermost is None:
+                innermost = par
+            # a value written outside a loop and used inside it is used again in the
+            # next iteration of that loop, however deeply the use is nested
+            if any(all(a is not par for a in w.node_ancestors()) for w in writes):
+                widest = par
+    return widest or innermost or node
 
 
 def is_constant(node, data):
